@@ -140,7 +140,14 @@ def run(tier, logdir):
         src = open(os.path.join(common.REPO, "src", "multi.rs")).read()
         sm = re.search(r"pub\(crate\) struct MultiState \{(.*?)\n\}", src, re.S)
         fields = [m.group(1) for m in re.finditer(r"^\s*(?:pub(?:\([\w ]+\))?\s+)?(\w+)\s*:", sm.group(1), re.M)] if sm else []
-        targets = [("MultiState", "draw", fields), ("BarState", "draw", None)]
+        src_st = open(os.path.join(common.REPO, "src", "state.rs")).read()
+        sb = re.search(r"pub\(crate\) struct BarState \{(.*?)\n\}", src_st, re.S)
+        bfields = [m.group(1) for m in re.finditer(r"^\s*(?:pub(?:\([\w ]+\))?\s+)?(\w+)\s*:", sb.group(1), re.M)] if sb else None
+        # the fields that make up the row accounting / the logical frame; a write to any OTHER field (e.g. a cache added later)
+        # on a skipped draw is not this property's business
+        ACCOUNTING = {"MultiState": {"zombie_lines_count", "orphan_lines", "members", "ordering", "free_set", "draw_target"},
+                      "BarState": {"draw_target", "state", "style", "on_finish", "tab_width"}}
+        targets = [("MultiState", "draw", fields), ("BarState", "draw", bfields)]
         for ty, meth, fl in targets:
             fn = mir.find(meth, self_ty=ty)
 
@@ -154,6 +161,9 @@ def run(tier, logdir):
             seen = set()
             for v in viol:
                 key = (v["stmt"])
+                fname0 = (fl[v["field"]] if fl and v["field"] < len(fl) else None)
+                if fname0 is not None and fname0 not in ACCOUNTING[ty]:
+                    continue
                 if key in seen:
                     continue
                 seen.add(key)
